@@ -360,3 +360,70 @@ func AssertInvariants(n *Node, ctx sdk.Context) []string {
 
 var _ = abci.RequestInitChain{}
 var _ = tmproto.Header{}
+
+// ---------------------------------------------------------------- raw store comparison
+
+// KavaStores are the KV store keys of the Kava modules (x/liquid and x/router keep no store).
+var KavaStores = []string{"auction", "bep3", "cdp", "committee", "community", "earn", "utilevm", "hard", "incentive",
+	"issuance", "kavadist", "precisebank", "pricefeed", "savings", "swap"}
+
+// DumpStore returns every key/value of one module store as seen by ctx.
+func DumpStore(n *Node, ctx sdk.Context, store string) map[string][]byte {
+	out := map[string][]byte{}
+	key := n.T.GetKVStoreKey(store)
+	if key == nil {
+		return out
+	}
+	it := ctx.KVStore(key).Iterator(nil, nil)
+	defer it.Close()
+	for ; it.Valid(); it.Next() {
+		out[string(it.Key())] = append([]byte{}, it.Value()...)
+	}
+	return out
+}
+
+// StoreDiff is one differing key of a module store.
+type StoreDiff struct {
+	Module string
+	Prefix string // hex of the first key byte
+	Kind   string // missing-in-import | extra-in-import | value-differs
+	Key    []byte
+	A, B   []byte
+}
+
+func prefixOf(k string) string {
+	if len(k) == 0 {
+		return "empty"
+	}
+	return fmt.Sprintf("%02x", k[0])
+}
+
+// CompareStores compares two dumps of one module store key by key; groups counts the keys per first key byte.
+func CompareStores(module string, a, b map[string][]byte) (diffs []StoreDiff, groups map[string]int) {
+	groups = map[string]int{}
+	var keys []string
+	for k := range a {
+		keys = append(keys, k)
+	}
+	for k := range b {
+		if _, ok := a[k]; !ok {
+			keys = append(keys, k)
+		}
+	}
+	sort.Strings(keys)
+	for _, k := range keys {
+		va, ina := a[k]
+		vb, inb := b[k]
+		p := prefixOf(k)
+		groups[p]++
+		switch {
+		case ina && !inb:
+			diffs = append(diffs, StoreDiff{module, p, "missing-in-import", []byte(k), va, nil})
+		case !ina && inb:
+			diffs = append(diffs, StoreDiff{module, p, "extra-in-import", []byte(k), nil, vb})
+		case !bytes.Equal(va, vb):
+			diffs = append(diffs, StoreDiff{module, p, "value-differs", []byte(k), va, vb})
+		}
+	}
+	return
+}
